@@ -117,10 +117,14 @@ def compare(ops, srcs, prog, beta, text, exp, obs, driver, F, run_id):
         e = exp["res"][ti - 1]
         g = got.get(ti, [])
         # the spec logs "-" for evaluate-only statements
-        g = ["-" if j < len(test) and test[j]["op"] == "none" and x == "T" else x for j, x in enumerate(g)]
+        g = ["-" if j < len(test) and test[j]["op"] in ("none", "chg") and x == "T" else x for j, x in enumerate(g)]
+        g = ["UE" if x == "UsageError" else x for x in g]
         if g != e:
             te = any(x == "TE" for x in e) or any(x == "TE" for x in g)
-            if not F:
+            ue = any(x == "UE" for x in e) or any(x == "UE" for x in g)
+            if ue:
+                mm("res-reeval", ["C14"], {"test": ti, "exp": e, "got": g})
+            elif not F:
                 mm("res", ["C06"], {"test": ti, "exp": e, "got": g})
             else:
                 mm("res", (["C06"] if te else []) + ["C07", "C02"], {"test": ti, "exp": e, "got": g})
@@ -172,7 +176,7 @@ def compare(ops, srcs, prog, beta, text, exp, obs, driver, F, run_id):
     def norm(x):
         return {"def": x["def"], "e": [dict(k=y["k"], v=y["v"], canon=y["canon"]) for y in x["e"]]}
     for i, op in enumerate(ops, 1):
-        a = render_core.alpha_src(beta, op, new[i - 1][3])
+        a = render_core.alpha_src(beta, op, new[i - 1][3], i)
         e = norm(exp["srcs"][i - 1])
         if a != e:
             props = ["C05"]
@@ -198,7 +202,9 @@ def prepare(run, seed):
     from . import render_core
     rng = random.Random("%s|%s" % (run["id"], seed))
     ops, prog = run["ops"], run["prog"]
-    beta = render_core.Beta(rng, max(natoms_of(run), 1), ops, render_core.needs_order(ops, prog))
+    need = max(natoms_of(run), 2 if render_core.has_chg(prog) else 1)
+    carrier = rng.choice(render_core.CARRIERS) if run.get("mutate") else None
+    beta = render_core.Beta(rng, need, ops, render_core.needs_order(ops, prog), carrier)
     return rng, beta
 
 
@@ -208,7 +214,7 @@ def replay_one(run, seed: int, driver=None):
     rng, beta = prepare(run, seed)
     ops, srcs, prog, exp = run["ops"], run["srcs"], run["prog"], run["exp"]
     imp = bool(exp.get("imp", False))
-    text = render_core.render(ops, srcs, prog, beta, imp, rng)
+    text = render_core.render(ops, srcs, prog, beta, imp, rng, run.get("placement"), bool(run.get("mutate")))
     F = [CATS[c] for c in exp["F"]]
     obs = execute(text, F, driver, rng)
     info = {"beta": beta.name, "F": F, "imp": imp, "driver": driver or "inline"}
@@ -224,7 +230,7 @@ def replay_chain(run, seed: int, driver=None):
     ops, srcs, prog = run["ops"], run["srcs"], run["prog"]
     chain = run["chain"]
     imp = bool(chain[0].get("imp", False)) if chain else False
-    text = render_core.render(ops, srcs, prog, beta, imp, rng)
+    text = render_core.render(ops, srcs, prog, beta, imp, rng, run.get("placement"), bool(run.get("mutate")))
     texts = [text]
     mism = []
     cur = srcs
@@ -320,6 +326,17 @@ def _worker_chain8(args):
                 mism, info, texts = replay_chain(run, seed, driver)
             for m in mism:
                 if m.get("step", 1) >= 2 and "C08" not in m["props"]:
+                    d = m["detail"]
+                    if m["clause"] == "pending" and set(d["got"]) - {"update"} == set(d["exp"]) - {"update"} \
+                            and len(texts) == 3:
+                        # only an `update` more than predicted: "shows no pending diff" allows an update whose
+                        # formatted result equals the present text - probe it by approving it
+                        rng = random.Random(run["id"])
+                        obs = execute(texts[2], ["update"], driver, rng)
+                        if obs["files"].get("test_case.py") == texts[2] and not obs.get("finish_error"):
+                            m["clause"] = "empty-diff-update"
+                            m["props"] = ["C05"]
+                            continue
                     m["props"] = m["props"] + ["C08"]
             # the direct no-op clause: the second of two identical sessions changes no byte
             if len(texts) == 3:
@@ -353,12 +370,11 @@ def _worker_chain9(args):
                 for m in ms:
                     m["path"] = name
                 mism += ms
-                try:
-                    finals.append((name, info["Fs"], ast.dump(ast.parse(texts[-1])), texts[-1]))
-                except SyntaxError:
-                    finals.append((name, info["Fs"], "syntax-error", texts[-1]))
-            ref = finals[0]
-            for name, Fs, dump, text in finals[1:]:
+                if len(texts) != len(chain) + 1:
+                    continue        # the history broke (reported above under its own clause)
+                finals.append((name, info["Fs"], ast.dump(ast.parse(texts[-1])), texts[-1]))
+            ref = finals[0] if finals and finals[0][0] == "atonce" else None
+            for name, Fs, dump, text in (finals[1:] if ref else []):
                 if dump != ref[2]:
                     mism.append({"clause": "order-matters", "props": ["C09"], "run": case["id"], "F": [],
                                  "ops": case["ops"],
@@ -366,7 +382,7 @@ def _worker_chain9(args):
                                             "final_in_order": text, "final_at_once": ref[3]}})
                     break
             out.append({"id": case["id"], "mism": mism, "npaths": len(case["chains"]),
-                        "texts": [finals[0][3]] if mism else None, "beta": info["beta"]})
+                        "texts": [finals[0][3]] if mism and finals else None, "beta": info["beta"]})
         except Exception:  # noqa
             import traceback
             out.append({"id": case["id"], "error": traceback.format_exc()[-2000:]})
